@@ -20,7 +20,7 @@ PARSE_RULE = ("every (context, byte) transition of the 2178-state RFC automaton 
 
 PLANS = {}
 PLANS['C01'] = dict(level='exploration', runs=parse_runs(3000000, 40000000), rule=PARSE_RULE, assumptions=A_MODELS)
-PLANS['C02'] = dict(level='exploration', runs=parse_runs(3000000, 40000000), rule=PARSE_RULE + "; C02 judges the structure of every accepted input against the text-level splitter (exact offsets, host kinds, address bytes, segment list, flags)", assumptions=A_MODELS)
+PLANS['C02'] = dict(level='exploration', runs=parse_runs(3000000, 40000000) + [R('ip4', 'fast', dict(random=2000000, enum_len=7), dict(random=20000000, enum_len=8), dict(ip4_valid=10000, ip4_invalid=100000)), R('ip4', 'asan', dict(random=300000, enum_len=6), dict(random=3000000, enum_len=7))], rule=PARSE_RULE + "; C02 judges the structure of every accepted input against the text-level splitter (exact offsets, host kinds, address bytes, segment list, flags); uriParseIpFourAddress directly: all strings over 0-9 . x up to length 7 (quick) / 8 plus random dotted decimals", assumptions=A_MODELS)
 PLANS['C03'] = dict(level='exploration',
     runs=[R('psplit', 'fast', dict(texts=300000), dict(texts=3000000), dict(embedded_outcome_identical=1000000, failed_parses_freed_repeatedly=10000)),
           R('psplit', 'asan', dict(texts=80000), dict(texts=800000), dict(embedded_outcome_identical=300000)),
